@@ -80,6 +80,9 @@ def full_dump(op, depth=0):
     return repr(op)
 
 
+_RECORDING = {}
+
+
 class Real:
     """One real parser with a token recorder on its lexer."""
 
@@ -92,19 +95,29 @@ class Real:
         self._install()
 
     def _install(self):
+        # The recorder is a subclass of the lexer's class, not an instance attribute holding a closure: Lexer.clone() / copy.copy()
+        # copy instance attributes, and a copied closure would keep reading from THIS lexer (a list_names that works on a clone of
+        # the lexer would then see nothing). A copy of the lexer is an ordinary lexer: only the parser's own lexer object reports.
         lx = self.parser.lex
-        orig = type(lx).token.__get__(lx)
-
-        def token():
-            try:
-                t = orig()
-            except BaseException:
-                self.lex_failed = True
-                raise
-            self.last_tok = t
-            self.ntok += 1
-            return t
-        lx.token = token
+        base = type(lx)
+        if not getattr(base, '_verif_recording', False):
+            sub = _RECORDING.get(base)
+            if sub is None:
+                def token(this, _base=base):
+                    rec = this.__dict__.get('_verif_rec')
+                    if rec is None or rec.parser.lex is not this:
+                        return _base.token(this)
+                    try:
+                        t = _base.token(this)
+                    except BaseException:
+                        rec.lex_failed = True
+                        raise
+                    rec.last_tok = t
+                    rec.ntok += 1
+                    return t
+                sub = _RECORDING[base] = type(base.__name__, (base,), {'token': token, '_verif_recording': True, '__module__': base.__module__})
+            lx.__class__ = sub
+        lx._verif_rec = self
 
     def _reset(self):
         self.last_tok = None
@@ -142,7 +155,8 @@ class Real:
         lx.paren_count = 0
         lx.input(text)
         out = []
-        orig = type(lx).token.__get__(lx)
+        cls = type(lx)
+        orig = (cls.__mro__[1] if getattr(cls, '_verif_recording', False) else cls).token.__get__(lx)
         try:
             while True:
                 t = orig()
